@@ -326,6 +326,50 @@ def extra_obligations(mods, tier, seed):
                 "where": f"{n5} host runs (4 styles x 3 widths x 3 text lengths x speed 0/120 x alone or followed by a looping animation of each style on either row): the non-looping "
                          "animation is inactive within 4*(len+cols)+12 due ticks, after the same number of ticks as when alone; the looping one stays active",
                 "time": round(time.time() - t2c, 3), "replay": {"bad": bad5[:4]}, "replay_confirmed": bool(bad5)})
+    # host model, executed (BOUNDED): random histories of animate() / tick(): a looping animation, once started, stays registered and
+    # active for ever (whatever is started or finishes around it); nothing raises; rows keep their width
+    import random as _rnd6
+    t2d = time.time()
+    bad6, n6 = [], 0
+    r6 = _rnd6.Random(seed)
+    for trial in range(200):
+        n6 += 1
+        hist = []
+        try:
+            lcd = HostLCD(rs=1, en=2, d4=3, d5=4, d6=5, d7=6, cols=8, rows=2)
+            looping, seen, now = [], set(), 0
+            for step in range(r6.randint(4, 14)):
+                if r6.random() < 0.4:
+                    st_, row_, lp_ = r6.choice(list(STY)), r6.randint(0, 1), r6.random() < 0.4
+                    txt_ = r6.choice(["ok", "HELLO", "a longer text than the row"])
+                    hist.append(f"animate({st_!r}, {row_}, {txt_!r}, speed_ms=0, loop={lp_})")
+                    lcd.animate(st_, row_, txt_, speed_ms=0, loop=lp_)
+                    fresh = [a for a in lcd.animations.values() if id(a) not in seen]
+                    for a in fresh:
+                        seen.add(id(a))
+                        if a.loop:
+                            looping.append((len(hist), a))
+                else:
+                    k_ = r6.randint(1, 12)
+                    hist.append(f"tick x{k_}")
+                    for _ in range(k_):
+                        now += 1
+                        lcd.tick(now)
+                live = [id(a) for a in lcd.animations.values()]
+                lost = [h for h, a in looping if id(a) not in live or not a.active]
+                if lost:
+                    bad6.append({"history": hist[:], "problem": f"the looping animation started at step {lost[0]} is no longer registered / active"})
+                    break
+                if any(len(rw) != 8 for rw in lcd.buffer):
+                    bad6.append({"history": hist[:], "problem": f"row widths {[len(rw) for rw in lcd.buffer]}"})
+                    break
+        except Exception as ex:
+            bad6.append({"history": hist[:], "problem": f"{type(ex).__name__}: {ex}"})
+        if len(bad6) >= 3:
+            break
+    out.append({"name": "C18/host/looping-animations-survive-any-history", "status": "discharged" if not bad6 else "sat", "backend": "bounded-native", "bounded": True,
+                "where": f"{n6} random histories of animate()/tick() on an 8x2 host display: every looping animation stays registered and active, rows stay 8 wide, nothing raises",
+                "time": round(time.time() - t2d, 3), "replay": {"bad": bad6[:3]}, "replay_confirmed": bool(bad6)})
     # host model, executed (BOUNDED): an animate() call that raises (row outside the display, unknown style) has no effect - later ticks do
     # not raise, the animations that were running keep running, no row changes
     t2b = time.time()
